@@ -287,6 +287,14 @@ class Registry:
     def enum_of_variant(self, enum_last, variant, head):
         e = self.enum_def(head)
         if e is None:
+            # several enums share the printed name (serde_json::Value / options::Value): the variant decides
+            segs = [s for s in split_path(head) if s]
+            cands = [c for c in self.enums.get(segs[-1], []) if any(v[0] == variant for v in c.variants)] if segs else []
+            if len(segs) > 1:
+                pre = segs[:-1]
+                cands = [c for c in cands if c.path.split('::')[-len(pre):] == pre] or cands
+            if len(cands) == 1:
+                return cands[0].full
             return None
         for v in e.variants:
             if v[0] == variant:
@@ -505,6 +513,15 @@ class ProgramIndex:
         if not sc:
             return None
         cands = sc.get(raw)
+        if cands is None and body is not None:
+            # consts nested in (closures of) methods are printed with the type path at the use site but with the
+            # `<impl at ..>` path at their definition: look the name up under the using body and its ancestors
+            leaf = last_seg(name)
+            segs = split_path(body.name)
+            for k in range(len(segs), 0, -1):
+                cands = sc.get('::'.join(segs[:k]) + '::' + leaf)
+                if cands is not None:
+                    break
         if cands is None:
             for k, v in sc.items():
                 if raw.endswith('::' + k) or name.endswith('::' + norm_callee(k)) or norm_callee(k) == name:
